@@ -420,38 +420,29 @@ Proof.
       * (* quoted-pair *)
         cbn [andb].
         destruct s' as [|d s''].
-        { cbn [lenN app hdz tlz] in *. cbn [N.eqb orb].
-          destruct (hdz after =? 0) eqn:Ez; cbn [orb]; [now left|].
-          replace (len <? k + 1) with false by lia.
-          replace (len - (k + 1)) with 0 by lia.
-          assert (Hq : qd_run 0 after = ([], after)) by (destruct after; reflexivity).
-          rewrite Hq. cbn [lenN]. destruct (bad_ctl (hdz after)); [now left|].
-          right. split; [reflexivity|]. exists (val ++ []). f_equal. lia. }
+        { (* the backslash is the last octet of the window: (pos-start) >= len *)
+          cbn [lenN app hdz tlz] in *. replace (len <=? k + 1) with true by lia. rewrite !orb_true_r. now left. }
         cbn [lenN app hdz tlz] in *.
-        replace (len <? k + 1) with false by lia. rewrite orb_false_r.
-        destruct (d =? 0) eqn:Ed0; [now left|].
-        replace (len - (k + 1)) with (lenN (d :: s'')) by (cbn [lenN]; lia).
-        change (d :: s'' ++ after) with ((d :: s'') ++ after).
-        rewrite (qd_run_app (d :: s'') after).
-        pose proof (qd_run_split (d :: s'') (lenN (d :: s''))) as Hsp.
-        destruct (qd_run (lenN (d :: s'')) (d :: s'')) as [run e] eqn:Er. cbn [fst snd].
+        replace (len <=? k + 1) with false by lia. rewrite orb_false_r.
+        destruct (bad_escaped d) eqn:Ed0; [now left|].
+        replace (len - (k + 1 + 1)) with (lenN s'') by lia.
+        rewrite (qd_run_app s'' after).
+        pose proof (qd_run_split s'' (lenN s'')) as Hsp.
+        destruct (qd_run (lenN s'') s'') as [run e] eqn:Er. cbn [fst snd].
         destruct e as [|e0 er].
-        { cbn [app hdz]. cbn [bad_ctl N.leb N.eqb N.compare negb andb orb].
-          replace (bad_ctl 0) with true by reflexivity.
+        { cbn [app hdz]. replace (bad_ctl 0) with true by reflexivity.
           destruct (bad_ctl (hdz after)); [now left|].
-          right. split; [reflexivity|]. exists (val ++ run). f_equal.
-          rewrite app_nil_r in Hsp. rewrite <- Hsp. cbn [lenN]. lia. }
+          right. split; [reflexivity|].
+          rewrite app_nil_r in Hsp. replace (k + 1 + 1 + lenN run) with len by (rewrite <- Hsp; lia).
+          eexists. reflexivity. }
         cbn [app hdz]. destruct (bad_ctl e0); [now left|].
         split; [reflexivity|].
-        apply (f_equal lenN) in Hsp. rewrite lenN_app in Hsp. cbn [lenN] in Hsp.
+        pose proof Hsp as Hlen. apply (f_equal lenN) in Hlen. rewrite lenN_app in Hlen. cbn [lenN] in Hlen.
         split; [cbn [lenN]; lia|]. split.
-        { apply (ends_suffix (c :: run) (e0 :: er)). cbn [app]. rewrite <- Hsp0 || idtac.
-          pose proof (qd_run_split (d :: s'') (lenN (d :: s''))) as Hsp2. rewrite Er in Hsp2.
-          cbn [app]. rewrite <- Hsp2. exact Hends. }
-        { pose proof (qd_run_split (d :: s'') (lenN (d :: s''))) as Hsp2. rewrite Er in Hsp2.
-          apply (f_equal (@length N)) in Hsp2. rewrite app_length in Hsp2. cbn [length] in *. lia. }
+        { apply (ends_suffix (c :: d :: run) (e0 :: er)). cbn [app]. rewrite <- Hsp. exact Hends. }
+        { apply (f_equal (@length N)) in Hsp. rewrite app_length in Hsp. cbn [length] in *. lia. }
       * (* ordinary octet *)
-        cbn [andb].
+        cbn [andb app].
         replace (len - k) with (lenN (c :: s')) by (cbn [lenN]; lia).
         change (c :: s' ++ after) with ((c :: s') ++ after).
         rewrite (qd_run_app (c :: s') after).
@@ -462,8 +453,9 @@ Proof.
            destruct b as [|e0 er].
            { cbn [app hdz]. replace (bad_ctl 0) with true by reflexivity.
              destruct (bad_ctl (hdz after)); [now left|].
-             right. split; [reflexivity|]. exists (val ++ c :: a). f_equal.
-             rewrite app_nil_r in Hsp. rewrite <- Hsp. cbn [lenN]. lia. }
+             right. split; [reflexivity|].
+             rewrite app_nil_r in Hsp. replace (k + lenN (c :: a)) with len by (rewrite <- Hsp; cbn [lenN] in *; lia).
+             eexists. reflexivity. }
            cbn [app hdz]. destruct (bad_ctl e0); [now left|].
            split; [reflexivity|].
            pose proof Hsp as Hlen. apply (f_equal lenN) in Hlen. rewrite lenN_app in Hlen. cbn [lenN] in Hlen.
@@ -1099,123 +1091,202 @@ Proof.
 Qed.
 
 (* ====================================================================== *)
-(* httpHeaderParseQuotedString on plain quoted text; the two deviations from RFC quoted-string *)
+(* httpHeaderParseQuotedString = RFC quoted-string decoding, for ALL inputs *)
 
-Lemma qd_run_all : forall X room rest, forallb qd_char X = true -> lenN X <= room ->
-  qd_char (hdz rest) = false -> qd_run room (X ++ rest) = (X, rest).
-Proof.
-  induction X as [|c X IH]; intros room rest HX Hr Hrest; cbn [app].
-  - destruct rest as [|r0 rr]; [reflexivity|]. cbn [qd_run hdz] in *. rewrite Hrest, andb_false_r. reflexivity.
-  - cbn [forallb] in HX. apply andb_prop in HX. destruct HX as [Hc HX]. cbn [lenN] in Hr.
-    cbn [qd_run]. replace (0 <? room) with true by lia. rewrite Hc. cbn [andb].
-    rewrite (IH (N.pred room) rest HX ltac:(lia) Hrest). reflexivity.
-Qed.
-
-Lemma qd_char_plain c : qd_char c = true ->
-  (c =? 34) = false /\ (c =? 13) = false /\ (c =? 10) = false /\ (c =? 92) = false /\ bad_ctl c = false.
-Proof. unfold qd_char, bad_ctl. lia. Qed.
-
-(* any window that reaches the closing quote reads exactly the text between the quotes *)
-Lemma pqs_plain X junk len :
-  forallb qd_char X = true -> lenN X + 2 <= len ->
-  parse_quoted_string (34 :: X ++ 34 :: junk) len = QOk X.
-Proof.
-  intros HX Hlen. unfold parse_quoted_string. cbn [hdz tlz N.eqb Pos.eqb negb].
-  cbn [length pqs_loop].
-  destruct X as [|c X'].
-  - cbn [app]. unfold pqs_iter. cbn [hdz N.eqb Pos.eqb negb andb]. reflexivity.
-  - cbn [forallb] in HX. pose proof HX as HX0. apply andb_prop in HX. destruct HX as [Hc HX'].
-    destruct (qd_char_plain c Hc) as (E34 & E13 & E10 & E92 & Eb).
-    cbn [app]. unfold pqs_iter at 1. cbn [hdz tlz]. rewrite E34, E13. cbn [negb andb].
-    replace (1 <? len) with true by (cbn [lenN] in Hlen; lia).
-    cbn [hdz tlz]. rewrite E10, E92. cbn [andb].
-    change (c :: X' ++ 34 :: junk) with ((c :: X') ++ 34 :: junk).
-    rewrite (qd_run_all (c :: X') (len - 1) (34 :: junk) HX0 ltac:(cbn [lenN] in *; lia) eq_refl).
-    cbn [hdz]. change (bad_ctl 34) with false. cbv iota.
-    unfold pqs_iter at 1. cbn [hdz N.eqb Pos.eqb negb andb]. reflexivity.
-Qed.
-
-(* RFC 9110 5.6.4 quoted-string: DQUOTE *( qdtext / quoted-pair ) DQUOTE, quoted-pair unescaped *)
+(* RFC 9110 5.6.4: quoted-string = DQUOTE *( qdtext / quoted-pair ) DQUOTE
+     qdtext = HTAB / SP / %x21 / %x23-5B / %x5D-7E / obs-text ; quoted-pair = BACKSLASH ( HTAB / SP / VCHAR / obs-text )
+   plus the two documented leniencies of the code: LWS folding inside the string ([CR] LF (SP / HTAB), RFC 2616 2.2)
+   reads as one SP, and whatever follows the closing DQUOTE is ignored. Character-at-a-time reference decoder. *)
 Definition rfc_qdtext (c : N) : bool :=
   (c =? 9) || (c =? 32) || (c =? 33) || ((35 <=? c) && (c <=? 91)) || ((93 <=? c) && (c <=? 126)) || (128 <=? c).
 Definition rfc_pairable (c : N) : bool := (c =? 9) || ((32 <=? c) && negb (c =? 127)).
+Definition is_ht_sp (c : N) : bool := (c =? 32) || (c =? 9).
 Fixpoint rfc_body (l acc : bytes) : option bytes :=
   match l with
   | [] => None
-  | 34 :: _ => Some (rev acc)
-  | 92 :: c :: r => if rfc_pairable c then rfc_body r (c :: acc) else None
-  | c :: r => if rfc_qdtext c then rfc_body r (c :: acc) else None
+  | c :: r =>
+      if c =? 34 then Some acc
+      else if c =? 92 then
+        match r with d :: r' => if rfc_pairable d then rfc_body r' (acc ++ [d]) else None | [] => None end
+      else if c =? 13 then
+        match r with d :: e :: r' => if (d =? 10) && is_ht_sp e then rfc_body r' (acc ++ [32]) else None | _ => None end
+      else if c =? 10 then
+        match r with e :: r' => if is_ht_sp e then rfc_body r' (acc ++ [32]) else None | [] => None end
+      else if rfc_qdtext c then rfc_body r (acc ++ [c]) else None
   end.
 Definition rfc_unquote (arg : bytes) : option bytes :=
-  match arg with 34 :: l => rfc_body l [] | _ => None end.
+  match arg with c :: l => if c =? 34 then rfc_body l [] else None | [] => None end.
+Definition qres_of (o : option bytes) : qres := match o with Some t => QOk t | None => QFail end.
 
+Lemma qd_char_is_qdtext c : qd_char c = rfc_qdtext c.
+Proof. unfold qd_char, rfc_qdtext. lia. Qed.
+Lemma bad_escaped_is_unpairable c : bad_escaped c = negb (rfc_pairable c).
+Proof. unfold bad_escaped, rfc_pairable. lia. Qed.
+
+Lemma rfc_body_run : forall run e acc, forallb qd_char run = true ->
+  rfc_body (run ++ e) acc = rfc_body e (acc ++ run).
+Proof.
+  induction run as [|c r IH]; intros e acc H; cbn [app]; [now rewrite app_nil_r|].
+  cbn [forallb] in H. apply andb_prop in H. destruct H as [Hc Hr]. cbn [rfc_body].
+  assert (Hq : rfc_qdtext c = true) by (now rewrite <- qd_char_is_qdtext).
+  replace (c =? 34) with false by (unfold qd_char in Hc; lia).
+  replace (c =? 92) with false by (unfold qd_char in Hc; lia).
+  replace (c =? 13) with false by (unfold qd_char in Hc; lia).
+  replace (c =? 10) with false by (unfold qd_char in Hc; lia).
+  rewrite Hq, (IH e (acc ++ [c]) Hr), <- app_assoc. reflexivity.
+Qed.
+
+(* with the whole text as window, the run stops only at the end or at a non-qdtext octet *)
+Lemma qd_run_full : forall l, let '(run, e) := qd_run (lenN l) l in
+  l = run ++ e /\ forallb qd_char run = true /\ (e = [] \/ qd_char (hdz e) = false).
+Proof.
+  induction l as [|c r IH]; cbn [lenN qd_run]; [repeat split; now left|].
+  replace (0 <? N.succ (lenN r)) with true by lia. rewrite N.pred_succ. cbn [andb].
+  destruct (qd_char c) eqn:E.
+  - destruct (qd_run (lenN r) r) as [a b]. destruct IH as (-> & Ha & Hb). cbn [app forallb]. rewrite E, Ha. repeat split. exact Hb.
+  - repeat split. right. exact E.
+Qed.
+
+Lemma pqs_loop_rfc : forall fuel pos k len val, k + lenN pos = len -> (length pos < fuel)%nat ->
+  pqs_loop fuel pos k len val = qres_of (rfc_body pos val).
+Proof.
+  induction fuel as [|f IH]; intros pos k len val Hk Hf; [lia|].
+  cbn [pqs_loop]. destruct pos as [|c r].
+  { cbn [lenN] in Hk. assert (k = len) by lia. subst k. rewrite (pqs_iter_end [] len val eq_refl). reflexivity. }
+  cbn [lenN length] in Hk, Hf. unfold pqs_iter. cbn [hdz tlz]. replace (k <? len) with true by lia.
+  cbn [rfc_body]. destruct (c =? 34) eqn:E34; cbn [negb andb]; [reflexivity|].
+  destruct (c =? 13) eqn:E13.
+  - (* CR LF (SP | HT) *)
+    replace (c =? 92) with false by lia.
+    replace (len <? k + 1) with false by lia. cbn [orb].
+    destruct r as [|d r2]; [reflexivity|]. cbn [hdz tlz lenN length] in *.
+    destruct r2 as [|e r3].
+    { destruct (d =? 10) eqn:Ed; cbn [negb]; [|reflexivity]. cbn [hdz tlz].
+      replace (len <? k + 1 + 1) with false by lia. reflexivity. }
+    cbn [hdz tlz lenN length] in *. destruct (d =? 10) eqn:Ed; cbn [negb andb]; [|reflexivity].
+    replace (len <? k + 1 + 1) with false by lia. cbn [orb]. unfold is_ht_sp.
+    destruct (e =? 32) eqn:E32; destruct (e =? 9) eqn:E9; cbn [negb andb orb]; try reflexivity;
+      apply IH; lia.
+  - cbn [hdz tlz]. destruct (c =? 10) eqn:E10.
+    + (* LF (SP | HT) *)
+      replace (c =? 92) with false by lia.
+      destruct r as [|e r3]; [cbn [hdz tlz]; replace (len <? k + 1) with false by lia; reflexivity|].
+      cbn [hdz tlz lenN length] in *. replace (len <? k + 1) with false by lia. cbn [orb]. unfold is_ht_sp.
+      destruct (e =? 32) eqn:E32; destruct (e =? 9) eqn:E9; cbn [negb andb orb]; try reflexivity;
+        apply IH; lia.
+    + destruct (c =? 92) eqn:E92; cbn [andb].
+      * (* quoted-pair *)
+        destruct r as [|d r']; [reflexivity|]. cbn [hdz tlz lenN length] in *.
+        replace (len <=? k + 1) with false by lia. rewrite orb_false_r, bad_escaped_is_unpairable.
+        destruct (rfc_pairable d) eqn:Ep; cbn [negb]; [|reflexivity].
+        replace (len - (k + 1 + 1)) with (lenN r') by lia.
+        pose proof (qd_run_full r') as Hfull. destruct (qd_run (lenN r') r') as [run e].
+        destruct Hfull as (Hr' & Hrun & He).
+        rewrite Hr', (rfc_body_run run e (val ++ [d]) Hrun).
+        assert (Hlen : lenN r' = lenN run + lenN e) by (rewrite Hr'; apply lenN_app).
+        destruct e as [|e0 er]; [reflexivity|]. destruct He as [He|He]; [discriminate|]. cbn [hdz] in *.
+        destruct (bad_ctl e0) eqn:Eb.
+        { cbn [rfc_body]. rewrite <- qd_char_is_qdtext, He. unfold bad_ctl in Eb.
+          replace (e0 =? 34) with false by lia. replace (e0 =? 92) with false by lia.
+          replace (e0 =? 13) with false by lia. replace (e0 =? 10) with false by lia. reflexivity. }
+        rewrite <- app_assoc. apply IH; [cbn [lenN] in *; lia|].
+        apply (f_equal (@length N)) in Hr'. rewrite app_length in Hr'. cbn [length] in *. lia.
+      * (* qdtext run *)
+        cbn [app]. replace (len - k) with (lenN (c :: r)) by (cbn [lenN]; lia).
+        pose proof (qd_run_full (c :: r)) as Hfull. destruct (qd_run (lenN (c :: r)) (c :: r)) as [run e] eqn:Er.
+        destruct Hfull as (Hr' & Hrun & He).
+        destruct (qd_char c) eqn:Eq.
+        -- destruct (qd_run_progress c r (lenN (c :: r)) ltac:(cbn [lenN]; lia) Eq) as (a & b & Hrp).
+           rewrite Hrp in Er. injection Er as <- <-.
+           change (rfc_body (c :: r) val) with (rfc_body (c :: r) val).
+           assert (Hsp : rfc_body (c :: r) val = rfc_body b (val ++ c :: a)).
+           { rewrite Hr'. apply rfc_body_run. exact Hrun. }
+           cbn [rfc_body] in Hsp. rewrite E34, E92, E13, E10 in Hsp. rewrite Hsp.
+           assert (Hlen : lenN (c :: r) = lenN (c :: a) + lenN b) by (rewrite Hr' at 1; apply lenN_app).
+           destruct b as [|e0 er]; [reflexivity|]. destruct He as [He|He]; [discriminate|]. cbn [hdz] in *.
+           destruct (bad_ctl e0) eqn:Eb.
+           { cbn [rfc_body]. rewrite <- qd_char_is_qdtext, He. unfold bad_ctl in Eb.
+             replace (e0 =? 34) with false by lia. replace (e0 =? 92) with false by lia.
+             replace (e0 =? 13) with false by lia. replace (e0 =? 10) with false by lia. reflexivity. }
+           apply IH; [cbn [lenN] in *; lia|].
+           apply (f_equal (@length N)) in Hr'. rewrite app_length in Hr'. cbn [length] in *. lia.
+        -- assert (Hrn : qd_run (lenN (c :: r)) (c :: r) = ([], c :: r)).
+           { cbn [qd_run]. rewrite Eq. now rewrite andb_false_r. }
+           rewrite Hrn in Er. injection Er as <- <-. cbn [hdz].
+           rewrite (bad_ctl_not_qd c Eq E34 E92 E13 E10). rewrite <- qd_char_is_qdtext, Eq. reflexivity.
+Qed.
+
+(* C29: quoted-string decoding = RFC quoted-string with quoted-pairs, for all inputs *)
+Theorem pqs_is_rfc arg : parse_quoted_string arg (lenN arg) = qres_of (rfc_unquote arg).
+Proof.
+  unfold parse_quoted_string, rfc_unquote. destruct arg as [|c l]; [reflexivity|]. cbn [hdz tlz].
+  destruct (c =? 34); cbn [negb]; [|reflexivity].
+  apply pqs_loop_rfc; [cbn [lenN]; lia|cbn [length]; lia].
+Qed.
+
+(* decode (encode X) = X : httpHeaderQuoteString output reads back, whatever follows *)
+Definition txt_char (c : N) : bool := rfc_pairable c.
+Definition esc (X : bytes) : bytes := flat_map (fun c => if is_special c then [92; c] else [c]) X.
+
+Lemma esc_id X : existsb is_special X = false -> esc X = X.
+Proof.
+  unfold esc. induction X as [|c r IH]; [reflexivity|]. cbn [existsb flat_map]. intros H.
+  apply orb_false_elim in H. destruct H as [Hc Hr]. rewrite Hc. cbn [app]. now rewrite IH.
+Qed.
+
+Lemma txt_no_nul X : forallb txt_char X = true -> no_nul X.
+Proof.
+  unfold no_nul. induction X as [|c r IH]; [reflexivity|]. cbn [forallb]. intros H. apply andb_prop in H.
+  destruct H as [Hc Hr]. rewrite (IH Hr), andb_true_r. unfold txt_char, rfc_pairable in Hc. lia.
+Qed.
+
+Lemma c_str_id0 l : no_nul l -> c_str l = l.
+Proof.
+  unfold no_nul, c_str. induction l as [|c r IH]; intros H; [reflexivity|].
+  cbn [forallb] in H. apply andb_prop in H. destruct H as [Hc Hr]. cbn [span]. rewrite Hc.
+  specialize (IH Hr). destruct (span _ r) as [a b]. cbn [fst] in *. now rewrite IH.
+Qed.
+
+Lemma quote_string_eq X : forallb txt_char X = true -> quote_string X = 34 :: esc X ++ [34].
+Proof.
+  intros H. unfold quote_string. rewrite (c_str_id0 X (txt_no_nul X H)).
+  destruct (existsb is_special X) eqn:E; [reflexivity|]. now rewrite (esc_id X E).
+Qed.
+
+Lemma rfc_body_esc : forall X junk acc, forallb txt_char X = true ->
+  rfc_body (esc X ++ 34 :: junk) acc = Some (acc ++ X).
+Proof.
+  induction X as [|c r IH]; intros junk acc H.
+  - cbn. now rewrite app_nil_r.
+  - cbn [forallb] in H. apply andb_prop in H. destruct H as [Hc Hr].
+    unfold esc. cbn [flat_map]. fold (esc r). destruct (is_special c) eqn:Es.
+    + cbn [app rfc_body]. unfold is_special in Es.
+      assert (Hcs : c = 34 \/ c = 92) by lia.
+      replace (92 =? 34) with false by reflexivity. replace (92 =? 92) with true by reflexivity.
+      unfold txt_char in Hc. rewrite Hc, (IH junk (acc ++ [c]) Hr), <- app_assoc. reflexivity.
+    + cbn [app rfc_body]. unfold is_special in Es. unfold txt_char, rfc_pairable in Hc.
+      replace (c =? 34) with false by lia. replace (c =? 92) with false by lia.
+      replace (c =? 13) with false by lia. replace (c =? 10) with false by lia.
+      replace (rfc_qdtext c) with true by (unfold rfc_qdtext; lia).
+      rewrite (IH junk (acc ++ [c]) Hr), <- app_assoc. reflexivity.
+Qed.
+
+Theorem quote_unquote X junk : forallb txt_char X = true -> rfc_unquote (quote_string X ++ junk) = Some X.
+Proof.
+  intros H. rewrite (quote_string_eq X H). cbn [app rfc_unquote N.eqb Pos.eqb].
+  rewrite <- app_assoc. cbn [app]. now rewrite (rfc_body_esc X junk [] H).
+Qed.
+
+Theorem pqs_quote_string X : forallb txt_char X = true ->
+  parse_quoted_string (quote_string X) (lenN (quote_string X)) = QOk X.
+Proof.
+  intros H. rewrite pqs_is_rfc. rewrite <- (app_nil_r (quote_string X)). now rewrite (quote_unquote X [] H).
+Qed.
+
+(* the former counterexamples, now decoded as RFC 9110 says *)
 Definition wit_qpair : bytes := [34; 97; 92; 34; 98; 34].      (* DQUOTE a BACKSLASH DQUOTE b DQUOTE *)
 Definition wit_qback : bytes := [34; 97; 92; 92; 98; 34].      (* DQUOTE a BACKSLASH BACKSLASH b DQUOTE *)
 Definition wit_htab : bytes := [34; 65; 44; 9; 66; 34].        (* DQUOTE A , HTAB B DQUOTE *)
-
-Lemma quoted_pair_refuted :
-  exists arg t, rfc_unquote arg = Some t /\ parse_quoted_string arg (lenN arg) <> QOk t /\
-                parse_quoted_string arg (lenN arg) = QOk [97].
-Proof. exists wit_qpair, [97; 34; 98]. vm_compute. repeat split; congruence. Qed.
-
-Lemma quoted_backslash_refuted :
-  exists arg t, rfc_unquote arg = Some t /\ parse_quoted_string arg (lenN arg) <> QOk t /\
-                parse_quoted_string arg (lenN arg) = QOk [97; 98].
-Proof. exists wit_qback, [97; 92; 98]. vm_compute. repeat split; congruence. Qed.
-
-Lemma htab_refuted :
-  exists arg t, rfc_unquote arg = Some t /\ parse_quoted_string arg (lenN arg) = QFail.
-Proof. exists wit_htab, [65; 44; 9; 66]. vm_compute. split; reflexivity. Qed.
-
-(* the refutations seen through HttpHdrCc::parse *)
-Lemma cc_quoted_pair_refuted :
-  exists v st t, cc_parse v = Some st /\ d_arg v = Some wit_qpair /\ rfc_unquote wit_qpair = Some t /\
-                 isSet st CC_PRIVATE = true /\ private_ st <> t /\ private_ st = [97].
-Proof.
-  exists ([112;114;105;118;97;116;101;61] ++ wit_qpair). eexists. exists [97; 34; 98].
-  vm_compute. repeat split; try reflexivity; congruence.
-Qed.
-Lemma cc_htab_refuted :
-  exists v st t, cc_parse v = Some st /\ d_arg v = Some wit_htab /\ rfc_unquote wit_htab = Some t /\
-                 isSet st CC_NO_CACHE = false /\ cc_ok st = false.
-Proof.
-  exists ([110;111;45;99;97;99;104;101;61] ++ wit_htab). eexists. exists [65; 44; 9; 66].
-  vm_compute. repeat split; reflexivity.
-Qed.
-
-(* partial: on text without backslash, HTAB, CR, LF the code agrees with RFC quoted-string *)
-Lemma rfc_body_plain : forall X junk acc, forallb qd_char X = true ->
-  forallb (fun c => negb (c =? 9)) X = true ->
-  rfc_body (X ++ 34 :: junk) acc = Some (rev acc ++ X).
-Proof.
-  induction X as [|c X IH]; intros junk acc HX HT; cbn [app].
-  - cbn [rfc_body]. now rewrite app_nil_r.
-  - cbn [forallb] in HX, HT. apply andb_prop in HX. apply andb_prop in HT. destruct HX as [Hc HX]. destruct HT as [Ht HT].
-    assert (Hq : rfc_qdtext c = true) by (unfold qd_char, rfc_qdtext in *; lia).
-    assert (H34 : c <> 34 /\ c <> 92) by (unfold qd_char in Hc; lia).
-    assert (E : rfc_body (c :: X ++ 34 :: junk) acc = rfc_body (X ++ 34 :: junk) (c :: acc)).
-    { cbn [rfc_body]. destruct c as [|p]; [discriminate|].
-      destruct p as [p|p|]; try (rewrite Hq; reflexivity);
-      repeat (destruct p as [p|p|]; try (rewrite Hq; reflexivity); try (exfalso; lia)). }
-    rewrite E, (IH junk (c :: acc) HX HT). cbn [rev]. now rewrite <- app_assoc.
-Qed.
-
-Theorem qs_plain_exact_partial X junk :
-  forallb qd_char X = true -> forallb (fun c => negb (c =? 9)) X = true ->
-  let arg := 34 :: X ++ 34 :: junk in
-  rfc_unquote arg = Some X /\ parse_quoted_string arg (lenN arg) = QOk X.
-Proof.
-  intros HX HT arg. split.
-  - unfold arg, rfc_unquote. now rewrite (rfc_body_plain X junk [] HX HT).
-  - unfold arg. apply pqs_plain; [exact HX|]. cbn [lenN]. rewrite lenN_app. cbn [lenN]. lia.
-Qed.
-
-Lemma pairs_local v : Forall (fun p => forall st,
-  cc_step st (fst p) (snd p) = cc_step st (fst p) (fst p)) (pairs_of v).
-Proof.
-  pose proof (pairs_of_wf v) as H. induction H as [|[it tl] ps Hp Hps IH]; constructor; [|exact IH].
-  intros st. cbn [fst snd]. apply (cc_step_local st it tl Hp).
-Qed.
 
 (* ====================================================================== *)
 (* Part D. packInto, and parsing the packed text *)
@@ -1393,38 +1464,37 @@ Proof.
   apply andb_prop in E. destruct E as [_ ->]. exact IH.
 Qed.
 
-Lemma pqs_iter_chars pos k len val : forallb qd_char val = true ->
+Lemma qd_txt c : qd_char c = true -> txt_char c = true.
+Proof. unfold qd_char, txt_char, rfc_pairable. lia. Qed.
+Lemma forallb_qd_txt l : forallb qd_char l = true -> forallb txt_char l = true.
+Proof.
+  induction l as [|c r IH]; [reflexivity|]. cbn [forallb]. intros H. apply andb_prop in H. destruct H as [Hc Hr].
+  now rewrite (qd_txt c Hc), IH.
+Qed.
+
+Lemma pqs_iter_chars pos k len val : forallb txt_char val = true ->
   match pqs_iter pos k len val with
-  | QDone (QOk t) => forallb qd_char t = true
-  | QNext _ _ v => forallb qd_char v = true
+  | QDone (QOk t) => forallb txt_char t = true
+  | QNext _ _ v => forallb txt_char v = true
   | _ => True
   end.
 Proof.
   intros Hv. unfold pqs_iter.
-  destruct (negb (hdz pos =? 34) && (k <? len)).
-  - destruct (hdz pos =? 13).
-    + destruct ((len <? k + 1) || negb (hdz (tlz pos) =? 10)); [exact I|].
-      destruct (hdz (tlz pos) =? 10).
-      * destruct ((len <? k + 1 + 1) || negb (hdz (tlz (tlz pos)) =? 32) && negb (hdz (tlz (tlz pos)) =? 9)); [exact I|].
-        rewrite forallb_app, Hv. reflexivity.
-      * destruct ((hdz (tlz pos) =? 92) && _); [exact I|].
-        pose proof (qd_run_chars (if hdz (tlz pos) =? 92 then tlz (tlz pos) else tlz pos)
-                      (len - (if hdz (tlz pos) =? 92 then k + 1 + 1 else k + 1))) as Hr.
-        destruct (qd_run _ _) as [run endp]. cbn [fst] in Hr.
-        destruct (bad_ctl (hdz endp)); [exact I|]. now rewrite forallb_app, Hv, Hr.
-    + destruct (hdz pos =? 10).
-      * destruct ((len <? k + 1) || negb (hdz (tlz pos) =? 32) && negb (hdz (tlz pos) =? 9)); [exact I|].
-        rewrite forallb_app, Hv. reflexivity.
-      * destruct ((hdz pos =? 92) && _); [exact I|].
-        pose proof (qd_run_chars (if hdz pos =? 92 then tlz pos else pos)
-                      (len - (if hdz pos =? 92 then k + 1 else k))) as Hr.
-        destruct (qd_run _ _) as [run endp]. cbn [fst] in Hr.
-        destruct (bad_ctl (hdz endp)); [exact I|]. now rewrite forallb_app, Hv, Hr.
-  - destruct (hdz pos =? 34); [exact Hv|exact I].
+  repeat match goal with
+  | |- context [qd_run ?a ?b] =>
+      let H := fresh "Hrun" in pose proof (forallb_qd_txt _ (qd_run_chars b a)) as H;
+      destruct (qd_run a b) as [? ?]; cbn [fst] in H
+  | |- context [if ?c then _ else _] => destruct c eqn:?
+  end; try exact I; try exact Hv;
+  rewrite ?forallb_app; cbn [forallb]; rewrite ?Hv, ?Hrun; cbn [andb]; try reflexivity;
+  rewrite andb_true_r;
+  match goal with H : true && (bad_escaped ?x || _) = false |- txt_char ?x = true =>
+    cbn [andb] in H; apply orb_false_elim in H; destruct H as [H _];
+    rewrite bad_escaped_is_unpairable in H; unfold txt_char; destruct (rfc_pairable x); [reflexivity|discriminate] end.
 Qed.
 
-Lemma pqs_loop_chars : forall fuel pos k len val t, forallb qd_char val = true ->
-  pqs_loop fuel pos k len val = QOk t -> forallb qd_char t = true.
+Lemma pqs_loop_chars : forall fuel pos k len val t, forallb txt_char val = true ->
+  pqs_loop fuel pos k len val = QOk t -> forallb txt_char t = true.
 Proof.
   induction fuel as [|f IH]; intros pos k len val t Hv H; [discriminate|].
   cbn [pqs_loop] in H. pose proof (pqs_iter_chars pos k len val Hv) as Hi.
